@@ -1,9 +1,10 @@
 """C19 — tabular export and import are faithful round trips."""
-import json, struct, warnings
+import inspect, json, random, struct, warnings, zlib
 
 import numpy as np
 import pandas as pd
 
+import framework
 import fsic
 from fsic.parser import Symbol, Type
 from fsic.core.containers import VectorContainer
@@ -13,7 +14,9 @@ LEAN_MODULE = 'Proofs.C19'
 THEOREMS = ['Fsic.C19.' + n for n in [
     'modelTable_cols', 'dataframe_columns', 'dataframe_columns_nodup', 'dataframe_columns_needs_guard',
     'dataframe_rows', 'dataframe_cells', 'dataframe_status', 'dataframe_internal_iff', 'container_columns',
-    'dataColumns_modelTable', 'linker_tables', 'linker_tables_lookup', 'linker_tables_count',
+    'dataColumns_modelTable', 'storageKey_injective', 'storageKey_ne_self', 'export_reads_own_series',
+    'attrLookup_differs_at_twin', 'attrLookup_eq_getItem', 'container_reads_own_series', 'toObj_getItem',
+    'from_dataframe_reads_own_series', 'no_kwargsClash', 'from_dataframe_false_at_witness', 'linker_tables', 'linker_tables_lookup', 'linker_tables_count',
     'linker_tables_false_at_witness', 'from_dataframe_roundtrip', 'from_dataframe_roundtrip_id',
     'symbols_roundtrip_of_decoderOk', 'decoderOk_of_symbols_roundtrip', 'symbols_roundtrip_iff_decoderOk',
     'installed_coercion_observed', 'codeDecoder_ok_of_markers', 'codeDecoder_ok', 'symbols_roundtrip',
@@ -46,6 +49,22 @@ RULE = ('random model scripts (1-5 equations; lags/leads, {parameters}, <errors>
         '"x " vs "x" are told apart: keys symbols-roundtrip-str-altered / -str-lost / -tuple-neq). str-valued model '
         'variables with edge-whitespace cells, variable names (column labels) and span labels (list / NumPy / pandas '
         'Index) with edge whitespace or \'\' go through the same table oracles. '
+        'NAME-DEPENDENT ACCESS PATHS: the ground truth of every oracle (and the input of the Lean model) is the array in '
+        'the object\'s storage, __dict__[\'_\' + name], never obj[name] / getattr; every exported column is compared with it '
+        'cell by cell (floats by IEEE bits), byte-wise and by dtype, and a mismatch is classified (df-/container-'
+        'column-not-a-series, -column-holds-other-series, -values, -dtype, -export-raises; from-dataframe-holds-other-series, '
+        '-not-a-series). Name pools: UNDERSCORE TWINS (x, _x, __x, _x_ variables of one object, either order) and MEMBER-LIKE '
+        'names = dir(BaseModel) + dir(BaseLinker) + dir(VectorContainer) + instance attributes (_attributes) + __dict__ keys '
+        '(and the names whose storage key they are) + constructor / from_dataframe parameters + a static list (properties '
+        'size/nbytes/values/strict/LAGS, methods copy/eval/solve/to_dataframe/..., class attributes NAMES/CODE/..., dunders). '
+        'EXHAUSTIVE (seed-independent): every pool name x host in {declared by a hand-written BaseModel subclass, added with '
+        'add_variable, parser-built script, plain VectorContainer, declared / run-time core variable of a linker whose '
+        'submodel carries the same name}, built only where the code accepts the name (refusals counted per host and kind: '
+        'refused:<host>:<kind>), each also next to its own twins; RANDOM: instances mixing 2-4 members of a twin group, 0-3 '
+        'accepted member-like names and ordinary names in random order on all hosts, linkers with such submodels and core '
+        'variables; 40% of the main population gets twin / member-like run-time variables too. In all of these EVERY SERIES '
+        'IS UNIQUE (base = hash of the name + position; counted: series-all-unique), so a column holding another '
+        'variable\'s series cannot pass. '
         'distinct = distinct (instance recipe, entry point, flags) resp. distinct symbol list; non-trivial = at least '
         'one variable and one period resp. a non-empty list')
 TRUSTED = ['pandas (DataFrame construction from a dict of arrays / a list of dicts, Index construction from the span, '
@@ -59,6 +78,12 @@ TRUSTED = ['pandas (DataFrame construction from a dict of arrays / a list of dic
            'cells and span labels cross to the Lean driver as opaque tokens (floats as IEEE bit patterns)']
 ASSUMPTIONS = ['variable names are distinct and none is called status/iterations (the constructor and add_variable '
                'raise DuplicateNameError otherwise; checked on every generated instance)',
+               'a series lives in the instance __dict__ under \'_\' + name (the ground truth of the oracles; if an entry is '
+               'not there the oracle falls back to obj[name] and counts ground-truth-fallback)',
+               'from_dataframe round trip: no variable is called like a positional parameter of __init__ (self, span; '
+               'reflected): `self` is accepted as a variable name and then from_dataframe raises TypeError (open finding '
+               'from-dataframe-self-column-typeerror, theorem from_dataframe_false_at_witness); a column labelled '
+               'default_value binds the parameter (modelled)',
                'span labels survive pandas Index construction unchanged (no None/NaN labels, no int/float mixtures): '
                'such spans are probed by the oracle only',
                'from_dataframe round trip is stated for float models (the constructor casts to the model dtype) and '
@@ -71,9 +96,9 @@ ASSUMPTIONS = ['variable names are distinct and none is called status/iterations
                '(the property is silent); the Lean theorems state what the code does (appended last, linker first)']
 
 META = {
-    "text": "Theorems for every store (any variables, span, cell type), flag combination, linker and symbol list: exported columns = model-order names (underscore-prefixed iff requested) ++ status? ++ iterations?, no duplicates, index = span, one cell per period, each column holds exactly its series; container export = index order; linker export = one table per submodel plus the linker's, keyed correctly (guard: linker name not a submodel key; count theorem without the guard); from_dataframe on any export reproduces span and the cast of every class variable (identity for float models); symbols_roundtrip: for EVERY symbol list, with the reflected coercion of the installed pandas, the code's decoder (is_missing = None or float NaN -> None in name/lags/leads/equation/code, int(field) otherwise for lags/leads) returns the original list (iff every type is a Type member); in general the round trip holds for every list IFF the decoder maps the coercion's missing markers back to None in every optional field, which the code's decoder does for any coercion whose markers are None/NaN. String identity: codeDecoder_preserves_strings (for EVERY string s a present str cell decodes to s itself in name/equation/code: is_missing never fires on a str, '' and whitespace-only included), present_strings_roundtrip (under ANY coercion, whenever the round trip returns, it returns one symbol per input symbol and every present str field unchanged), symbols_roundtrip_strings (installed pandas: it does return), toPy_injective ('' and None, 'x ' and 'x' are different values of the model, so equality with the original list is field-exact), normalising_decoder_breaks_roundtrip (a decoder that alters even one string in one str field fails on a one-symbol list). Tied to fsic/tools.py, BaseModel.from_dataframe, VectorContainer.to_dataframe by exact comparison of tables (cells as IEEE bits) on generated models/linkers/symbol lists; symbol round trips compared three ways (real output == model output == original list), including parser outputs and hand-built lists whose str fields are '' or carry leading/trailing/only whitespace (strings cross to the driver JSON-escaped and come back exactly).",
+    "text": "Theorems for every store (any variables, span, cell type), flag combination, linker and symbol list: exported columns = model-order names (underscore-prefixed iff requested) ++ status? ++ iterations?, no duplicates, index = span, one cell per period, each column holds exactly its series; container export = index order; linker export = one table per submodel plus the linker's, keyed correctly (guard: linker name not a submodel key; count theorem without the guard); NAME vs STORAGE KEY made explicit (Obj = the instance __dict__, storageKey name = '_' ++ name, getItem = obj[name]): storageKey_injective, export_reads_own_series (for EVERY name list, underscore twins and member-like names included, the column of k is the __dict__ entry under storageKey k and, when the entries are pairwise different, of no other key: not the entry under k itself, not another variable's), container_reads_own_series, toObj_getItem (the __dict__ a constructor builds gives every name its own entry), from_dataframe_reads_own_series (round trip down to __dict__), attrLookup_differs_at_twin (Python's getattr would return Y's series for _Y; equal to obj[k] off __dict__ keys); from_dataframe on any export reproduces span and the cast of every class variable (identity for float models); symbols_roundtrip: for EVERY symbol list, with the reflected coercion of the installed pandas, the code's decoder (is_missing = None or float NaN -> None in name/lags/leads/equation/code, int(field) otherwise for lags/leads) returns the original list (iff every type is a Type member); in general the round trip holds for every list IFF the decoder maps the coercion's missing markers back to None in every optional field, which the code's decoder does for any coercion whose markers are None/NaN. String identity: codeDecoder_preserves_strings (for EVERY string s a present str cell decodes to s itself in name/equation/code: is_missing never fires on a str, '' and whitespace-only included), present_strings_roundtrip (under ANY coercion, whenever the round trip returns, it returns one symbol per input symbol and every present str field unchanged), symbols_roundtrip_strings (installed pandas: it does return), toPy_injective ('' and None, 'x ' and 'x' are different values of the model, so equality with the original list is field-exact), normalising_decoder_breaks_roundtrip (a decoder that alters even one string in one str field fails on a one-symbol list). Tied to fsic/tools.py, BaseModel.from_dataframe, VectorContainer.to_dataframe by exact comparison of tables (cells as IEEE bits) on generated models/linkers/symbol lists; symbol round trips compared three ways (real output == model output == original list), including parser outputs and hand-built lists whose str fields are '' or carry leading/trailing/only whitespace (strings cross to the driver JSON-escaped and come back exactly).",
     "design_ref": "DESIGN.md §5 M8, §6 C19, §7 row 15",
-    "note": "Partial: pandas is outside the model (DataFrame/Index construction, dtype inference, None->NaN coercion, iterrows) - observed through the reflected table and by the oracle (dtype preservation). The two symbols round-trip findings (NaN for a missing name/equation/code; TypeError when every lags/leads entry is None) are fixed by fsic 56f842e: their oracle keys remain and a regression under them is a VIOLATION. Open known finding on the unchanged tree: a None span label is exported as NaN (df-index-none-label-nan). Trusted: Lean kernel, standard axioms, the correspondence harness.",
+    "note": "Partial: pandas is outside the model (DataFrame/Index construction, dtype inference, None->NaN coercion, iterrows) - observed through the reflected table and by the oracle (dtype preservation). The two symbols round-trip findings (NaN for a missing name/equation/code; TypeError when every lags/leads entry is None) are fixed by fsic 56f842e: their oracle keys remain and a regression under them is a VIOLATION. Open known findings on the unchanged tree: a None span label is exported as NaN (df-index-none-label-nan); a model with a variable called `self` cannot be re-imported (from-dataframe-self-column-typeerror: from_dataframe_roundtrip carries the guard CtorNamesOk, from_dataframe_false_at_witness proves the unguarded statement false). Trusted: Lean kernel, standard axioms, the correspondence harness.",
     "technique": "Lean 4 proof (induction over insertion-ordered dicts and symbol lists, decide on reflected tables) + differential correspondence check + property oracle on the real DataFrames"
 }
 
@@ -81,6 +106,7 @@ FLAGS = [(s, i, n) for s in (False, True) for i in (False, True) for n in (False
 KNOWN_STR_NAN = 'symbols-roundtrip-missing-str-nan'
 KNOWN_INT_RAISES = 'symbols-roundtrip-all-missing-int-typeerror'
 KNOWN_NONE_LABEL = 'df-index-none-label-nan'
+KNOWN_FD_SELF = 'from-dataframe-self-column-typeerror'
 
 
 # ---- tokens ---------------------------------------------------------------------------------------------------
@@ -126,9 +152,36 @@ def split_special(table):
     return table['index'], var, spec
 
 
+def truth(obj, name):
+    """GROUND TRUTH of the series of variable `name`: the array held in the object's storage,
+    `obj.__dict__['_' + name]` (what `add_variable` wrote) -- read without going through `obj[name]`, `getattr` or any
+    other name-dependent access path of the code under test.  None if the storage layout is not the expected one."""
+    v = vars(obj).get('_' + name) if isinstance(name, str) else None
+    return v if isinstance(v, np.ndarray) and v.ndim == 1 else None
+
+
+def series_of(obj, name, rep=None):
+    """Ground truth, falling back to `obj[name]` only if the storage layout was refactored away (counted)."""
+    v = truth(obj, name)
+    if v is None:
+        if rep is not None:
+            rep.dist['ground-truth-fallback:obj[name]'] += 1
+        v = obj[name]
+    return v
+
+
 def store_json(obj):
-    return {'span': [tok(x) for x in obj.span], 'index': list(obj.index), 'names': list(getattr(obj, 'names', [])),
-            'data': [[k, toks(obj[k])] for k in obj.index]}
+    """The instance as the Lean model receives it.  Normally AS IT IS IN MEMORY (`dict`: the 1-D arrays of
+    `__dict__` under their storage keys, insertion order): the model then reads every series through `getItem`
+    (`name in index`, `'_' + name`).  Only if some series is not where the layout says, by name (`data`)."""
+    idx = list(vars(obj)['index'])
+    out = {'span': [tok(x) for x in vars(obj)['span']], 'index': idx, 'names': list(vars(obj).get('names', []))}
+    if all(truth(obj, k) is not None for k in idx):
+        out['dict'] = [[k, toks(v)] for k, v in vars(obj).items()
+                       if isinstance(k, str) and k.startswith('_') and isinstance(v, np.ndarray) and v.ndim == 1]
+    else:
+        out['data'] = [[k, toks(obj[k])] for k in idx]
+    return out
 
 
 # ---- generators -----------------------------------------------------------------------------------------------
@@ -255,6 +308,182 @@ def has_edge_ws(x):
     return isinstance(x, str) and (x == '' or x != x.strip())
 
 
+# ---- name pools: names whose ACCESS PATH may differ from an ordinary name's ----------------------------------------
+# (1) underscore twins: `Y` is stored under `_Y`, so a variable CALLED `_Y` (stored under `__Y`) has the name of
+#     another variable's storage entry; (2) names of members of the classes / instance attributes / `__dict__` keys /
+#     constructor parameters: `getattr(obj, name)` finds the member, `obj[name]` must find the series.
+TWIN_BASES = ['Y', 'X', 'C', 'K', 'T', 'Cd', 'H_2', 'size', 'copy', 'values']
+STATIC_MEMBER_NAMES = [
+    'size', 'nbytes', 'values', 'strict', 'sizes', 'LAGS', 'LEADS', 'CODE', 'NAMES', 'ENDOGENOUS', 'EXOGENOUS',
+    'PARAMETERS', 'ERRORS', 'CHECK', 'copy', 'eval', 'exec', 'reindex', 'solve', 'solve_t', 'solve_period', 'solve_t_before',
+    'solve_t_after', 'evaluate_t', 'iter_periods', 'to_dataframe', 'to_dataframes', 'from_dataframe', 'add_variable',
+    'add_attribute', 'replace_values', 'get_closest_match', 'span', 'index', 'names', 'dtype', 'lags', 'leads',
+    'endogenous', 'check', 'engine', 'status', 'iterations', 'submodels', 'name', 'attributes', '_attributes', '_strict',
+    '_evaluate', '_LAGS', '_LEADS', '__dict__', '__class__', '__len__', '__getitem__', '__getattr__', '__setattr__',
+    '__init__', '__doc__', '__module__', '__contains__', '__dir__', '__copy__', 'self', 'cls', 'data', 'default_value',
+    'initial_values', 'args', 'kwargs']
+NAME_HOSTS = ['class', 'runtime', 'parser', 'container', 'linker-class', 'linker-runtime']
+_POOL = {}
+
+
+def _fresh_objects():
+    return [fsic.BaseModel(range(2)), fsic.BaseLinker({'A': fsic.BaseModel(range(2))}), VectorContainer(range(2))]
+
+
+def member_pool():
+    """Every name to try as a variable name: `dir()` of the three classes, the instance attributes (`_attributes`)
+    and `__dict__` keys of fresh instances (also without their leading underscore: the name whose storage key
+    they are), the parameters of the constructors / `from_dataframe`, and a static list (so that a member that
+    disappears from the code stays in the pool)."""
+    if 'names' not in _POOL:
+        names = set(STATIC_MEMBER_NAMES)
+        for cls in (fsic.BaseModel, fsic.BaseLinker, VectorContainer):
+            names |= set(dir(cls))
+            for fn in ('__init__', 'from_dataframe', 'to_dataframe', 'add_variable'):
+                try:
+                    names |= set(inspect.signature(getattr(cls, fn)).parameters)
+                except (AttributeError, TypeError, ValueError):
+                    pass
+        for o in _fresh_objects():
+            keys = set(vars(o)) | set(vars(o).get('_attributes', []))
+            names |= {k for k in keys if isinstance(k, str)} | {k[1:] for k in keys if isinstance(k, str) and k.startswith('_') and len(k) > 1}
+        _POOL['names'] = sorted(names)
+    return _POOL['names']
+
+
+def name_kind(n):
+    """Name-pool kind of a member-like name (first match)."""
+    if 'kinds' not in _POOL:
+        objs = _fresh_objects()
+        _POOL['inst'] = set().union(*[set(vars(o).get('_attributes', [])) for o in objs])
+        _POOL['keys'] = set().union(*[set(vars(o)) for o in objs])
+        params = set()
+        for cls in (fsic.BaseModel, fsic.BaseLinker):
+            for fn in ('__init__', 'from_dataframe'):
+                try:
+                    params |= set(inspect.signature(getattr(cls, fn)).parameters)
+                except (AttributeError, TypeError, ValueError):
+                    pass
+        _POOL['params'] = params | {'self', 'cls'}
+        _POOL['kinds'] = {}
+    if n in _POOL['kinds']:
+        return _POOL['kinds'][n]
+    kind = None
+    if n.startswith('__') and n.endswith('__') and len(n) > 4:
+        kind = 'dunder'
+    else:
+        for cls in (fsic.BaseModel, fsic.BaseLinker, VectorContainer):
+            try:
+                a = inspect.getattr_static(cls, n)
+            except AttributeError:
+                continue
+            if isinstance(a, property):
+                kind = 'property'
+            elif isinstance(a, (staticmethod, classmethod)) or inspect.isroutine(a):
+                kind = 'method'
+            else:
+                kind = 'class-attr'
+            break
+    if kind is None:
+        kind = ('instance-attr' if n in _POOL['inst'] else 'dict-key' if n in _POOL['keys'] else
+                'storage-key-of-dict-key' if '_' + n in _POOL['keys'] else 'ctor-parameter' if n in _POOL['params'] else 'plain')
+    _POOL['kinds'][n] = kind
+    return kind
+
+
+def twin_group(b):
+    return [b, '_' + b, '__' + b, '_' + b + '_']
+
+
+def twin_kind(names):
+    """True if the list holds a variable whose NAME is the storage key of another (`_Y` next to `Y`)."""
+    ns = set(names)
+    return any('_' + n in ns for n in ns)
+
+
+def uniq_vals(name, j, n, dt):
+    """A series no other variable of the object holds: base = hash of the name, made unique by the position `j` of
+    the variable in the object, then one distinct cell per period."""
+    b = (zlib.crc32(name.encode('utf-8', 'surrogatepass')) % 997) * 64 + (j % 64)
+    if dt in ('int', 'int32'):
+        return [b * 8 + p for p in range(n)]
+    if dt == 'str':
+        return [f'{name}|{j}|{p}' for p in range(n)]
+    return [b + p / 8 + 0.125 for p in range(n)]       # float, float32 (exact in both)
+
+
+RUNTIME_BASE = 'Y = 0.5 * X + 3'       # (solved, Y still differs from X)
+UNIQ_DTYPES = ['float', 'float', 'int', 'int32', 'str', 'float32']
+_HAND = {}
+
+
+def hand_class(names):
+    """A hand-written BaseModel subclass declaring `names` (first = endogenous): what a user writes without the
+    parser, so ANY string can be a variable name.  `_evaluate` works on the storage directly."""
+    key = tuple(names)
+    if key not in _HAND:
+        first, last = names[0], names[-1]
+
+        class Hand(fsic.BaseModel):
+            ENDOGENOUS = [first]
+            EXOGENOUS = list(names[1:])
+            NAMES = ENDOGENOUS + EXOGENOUS
+            CHECK = ENDOGENOUS
+
+            def _evaluate(self, t, **kwargs):
+                d = vars(self)
+                d['_' + first][t] = d['_' + last][t] * 0.5 + 3.0 if last != first else d['_' + first][t - 1] + 1.0
+        _HAND[key] = Hand
+    return _HAND[key]
+
+
+def names_script(names):
+    """A script whose variables are exactly `names` (when the parser takes them for variables)."""
+    if len(names) == 1:
+        return f'{names[0]} = {names[0]}[-1] + 1'
+    rhs = [f'{names[1]}[-1]'] + list(names[2:])
+    return f'{names[0]} = ' + ' + '.join(rhs)
+
+
+def ctor_params():
+    name_kind('x')
+    return _POOL['params']
+
+
+def gen_named_recipe(rng, host, names, n=None, solve=None, dts=None):
+    """Recipe (same format as `gen_recipe`, so every case built from it replays through `build_instance`) of an
+    instance whose variables are `names`, every series unique.  host 'class': hand-written subclass declaring them;
+    'parser': parser-built from `names_script`; 'runtime': `Y = X` + add_variable of each; 'container': a plain
+    VectorContainer + add_variable of each."""
+    kind = rng.choice(['range', 'liststr', 'listint', 'mixed', 'pdstr', 'periodQ']) if n is None else 'range'
+    n = rng.choice([1, 2, 3, 4, 5]) if n is None else n
+    rec = {'span': [kind, n, rng.randint(0, 3)], 'init': {}, 'extras': [], 'solve': None, 'edits': [], 'poke': {},
+           'host': host, 'uniq': True}
+    if host in ('class', 'parser'):
+        if host == 'class':
+            rec['class_names'] = list(names)
+        else:
+            rec['script'] = names_script(names)
+        for j, v in enumerate(names):
+            vals = [bits(x) for x in uniq_vals(v, j, n, 'float')]
+            # a name that is a parameter of __init__ cannot be passed as an initial value: written to storage
+            (rec['poke'] if v in ctor_params() else rec['init'])[v] = vals
+    else:
+        if host == 'runtime':
+            rec['script'] = RUNTIME_BASE
+            rec['init'] = {'Y': [bits(x) for x in uniq_vals('Y', 60, n, 'float')], 'X': [bits(x) for x in uniq_vals('X', 61, n, 'float')]}
+        else:
+            rec['container'] = True
+        for j, v in enumerate(names):
+            dt = dts[j] if dts else rng.choice(UNIQ_DTYPES)
+            rec['extras'].append([v, dt, {'scalar': False, 'vals': uniq_vals(v, j, n, dt)}])
+    if solve is None:
+        solve = host != 'container' and rng.random() < 0.4
+    if solve:
+        rec['solve'] = {'max_iter': rng.choice([1, 3]), 'errors': rng.choice(['ignore', 'skip'])}
+    return rec
+
+
 def gen_extra_values(rng, dt, n):
     if rng.random() < 0.25:
         scalar = True
@@ -294,7 +523,34 @@ def gen_recipe(rng, script, names):
     if rng.random() < 0.4 and n:
         for _ in range(rng.randint(1, 3)):
             rec['edits'].append([rng.randrange(n), rng.choice('.FES-'), rng.choice([-1, 0, 1, 5, 100])])
+    if rng.random() < 0.4:
+        uniquify(rng, rec, names)
     return rec
+
+
+def uniquify(rng, rec, names):
+    """Name-dependent access paths inside the main population: every series of the instance unique (so that a column
+    holding ANOTHER variable's series cannot pass), plus run-time variables that are underscore twins of the class's
+    variables (`_Y` next to `Y`, `__Y`, `_Y_`) or named like members of the class."""
+    n = rec['span'][1]
+    rec['uniq'] = True
+    for j, v in enumerate(names):
+        if v not in ctor_params():
+            rec['init'][v] = [bits(x) for x in uniq_vals(v, j, n, 'float')]
+    taken = set(names) | {e[0] for e in rec['extras']}
+    cand = []
+    for v in rng.sample(list(names), min(len(names), 2)):
+        cand += rng.sample(['_' + v, '__' + v, '_' + v + '_'], rng.choice([1, 1, 2]))
+    cand += rng.sample(accepted('runtime'), rng.choice([0, 1, 2]))
+    for nm in cand:
+        if nm not in taken:
+            taken.add(nm)
+            rec['extras'].append([nm, rng.choice(UNIQ_DTYPES), None])
+    for j, e in enumerate(rec['extras']):
+        if e[1] in ('bool', 'uint8'):
+            e[1] = 'int'
+        e[2] = {'scalar': False, 'vals': uniq_vals(e[0], len(names) + j, n, e[1])}
+    rng.shuffle(rec['extras'])
 
 
 def unbits(b):
@@ -317,10 +573,18 @@ def apply_extras(obj, extras):
 
 
 def build_instance(rec):
-    M = model_class(rec['script'])
+    """(class | None, instance) of a recipe: parser-built class (`script`), hand-written class (`class_names`) or a
+    plain VectorContainer (`container`)."""
     kind, n, o = rec['span']
+    if rec.get('container'):
+        c = VectorContainer(make_span(kind, n, o))
+        apply_extras(c, rec['extras'])
+        return None, c
+    M = hand_class(rec['class_names']) if 'class_names' in rec else model_class(rec['script'])
     init = {k: (unbits(v) if not isinstance(v, list) else [unbits(b) for b in v]) for k, v in rec['init'].items()}
     m = M(make_span(kind, n, o), **init)
+    for k, v in rec.get('poke', {}).items():
+        vars(m)['_' + k][:] = [unbits(b) for b in v]
     apply_extras(m, rec['extras'])
     if rec['solve']:
         with warnings.catch_warnings(), np.errstate(all='ignore'):
@@ -333,6 +597,42 @@ def build_instance(rec):
         m.status[p] = st
         m.iterations[p] = it
     return M, m
+
+
+_ACCEPTED = {}
+
+
+def try_named(host, names, n=2):
+    """Build an instance whose variables are `names` on `host`; (recipe-or-linker-recipe, object) or raises."""
+    rng = random.Random('probe')
+    if host in ('linker-class', 'linker-runtime'):
+        # the submodel carries the same names (added at run time) where a model accepts them
+        sub = list(names) if all(x in accepted('runtime') or x.startswith('_') for x in names) else ['Q']
+        lrec = gen_named_linker_recipe(rng, names if host == 'linker-class' else [], [] if host == 'linker-class' else names,
+                                       [['A', gen_named_recipe(rng, 'runtime', sub, n=n, solve=False)]], n)
+        return lrec, build_linker(lrec)
+    rec = gen_named_recipe(rng, host, names, n=n, solve=False)
+    M, m = build_instance(rec)
+    if host == 'parser' and sorted(M.NAMES) != sorted(names):
+        raise ValueError(f'the parser reads {names} as {M.NAMES}')
+    return rec, m
+
+
+def accepted(host):
+    """Pool names the code under test accepts as a variable name on `host` (found by trying; once per process)."""
+    if host not in _ACCEPTED:
+        ok, refused = [], {}
+        for nm in member_pool():
+            try:
+                with warnings.catch_warnings():
+                    warnings.simplefilter('ignore')
+                    try_named(host, [nm] if host != 'parser' else [nm, 'X'])
+                ok.append(nm)
+            except Exception as e:  # noqa: BLE001
+                refused[nm] = type(e).__name__
+        _ACCEPTED[host] = ok
+        _ACCEPTED['refused:' + host] = refused
+    return _ACCEPTED[host]
 
 
 def names_ok(obj):
@@ -400,21 +700,61 @@ def oracle_table(obj, df, flags, rep, case, where):
     if var_got != var_want:
         violate(rep, 'df-column-order', f'{where}: variable columns {var_got}, model order {var_want}', case)
     for nm in var_want:
-        series = obj[nm]
-        col = df[nm]
-        if toks(col) != toks(series):
-            violate(rep, 'df-values', f'{where}: column {nm!r} holds {col.tolist()!r}, the series is {series.tolist()!r}', case)
-        elif series.dtype.kind in 'fiub' and col.dtype != series.dtype:
-            violate(rep, 'df-dtype', f'{where}: column {nm!r} has dtype {col.dtype}, the series {series.dtype}', case)
-    if st and 'status' in got and toks(df['status']) != toks(obj.status):
-        violate(rep, 'df-status-values', f'{where}: status column {df["status"].tolist()} != {obj.status.tolist()}', case)
+        check_column(obj, nm, df[nm], rep, case, where, 'df')
+    if st and 'status' in got and toks(df['status']) != toks(series_of(obj, 'status', rep)):
+        violate(rep, 'df-status-values', f'{where}: status column {df["status"].tolist()} != '
+                    f'{series_of(obj, "status").tolist()}', case)
     if it and 'iterations' in got:
-        if toks(df['iterations']) != toks(obj.iterations):
+        its = series_of(obj, 'iterations', rep)
+        if toks(df['iterations']) != toks(its):
             violate(rep, 'df-iterations-values', f'{where}: iterations column {df["iterations"].tolist()} != '
-                        f'{obj.iterations.tolist()}', case)
-        elif df['iterations'].dtype != obj.iterations.dtype:
+                        f'{its.tolist()}', case)
+        elif df['iterations'].dtype != its.dtype:
             violate(rep, 'df-dtype', f'{where}: iterations column has dtype {df["iterations"].dtype}, the series '
-                        f'{obj.iterations.dtype}', case)
+                        f'{its.dtype}', case)
+
+
+SCALARS = (bool, int, float, complex, str, bytes, type(None), np.generic)
+
+
+def short(x, n=160):
+    r = repr(x)
+    return r if len(r) <= n else r[:n] + '...'
+
+
+def check_column(obj, nm, col, rep, case, where, prefix):
+    """ABSOLUTE content of one exported column against the ground truth (`truth`: the array in the object's storage
+    under `'_' + nm`): same cells (floats by IEEE bits), same numeric / boolean dtype.  A mismatch is classified:
+    `<prefix>-column-not-a-series` (the column is not a 1-D series of scalar cells: a bound method, a property value
+    broadcast, a 2-D array ...), `<prefix>-column-holds-other-series` (it is exactly the stored series of ANOTHER
+    variable of the object), `<prefix>-values` (anything else), `<prefix>-dtype`."""
+    series = series_of(obj, nm, rep)
+    try:
+        is_series = isinstance(col, pd.Series) and len(col) == len(series)
+        cells = col.tolist() if is_series else None
+        is_series = is_series and all(isinstance(v, SCALARS) for v in cells)
+    except Exception:  # noqa: BLE001
+        is_series, cells = False, None
+    if not is_series:
+        violate(rep, f'{prefix}-column-not-a-series', f'{where}: column {nm!r} is not a series of {len(series)} scalar cells: '
+                    f'{short(cells if cells is not None else col)}; stored series {short(series.tolist())}', case)
+        return False
+    if [tok(v) for v in cells] != toks(series):
+        other = [k for k in vars(obj)['index'] if k != nm and truth(obj, k) is not None
+                 and len(series) and toks(truth(obj, k)) == [tok(v) for v in cells]]
+        if other:
+            violate(rep, f'{prefix}-column-holds-other-series', f'{where}: column {nm!r} holds {short(cells)} = the stored '
+                        f'series of {other[0]!r}; its own stored series (__dict__[{"_" + nm!r}]) is {short(series.tolist())}', case)
+        else:
+            violate(rep, f'{prefix}-values', f'{where}: column {nm!r} holds {short(cells)}, the series is {short(series.tolist())}', case)
+        return False
+    if series.dtype.kind in 'fiub' and col.dtype != series.dtype:
+        violate(rep, f'{prefix}-dtype', f'{where}: column {nm!r} has dtype {col.dtype}, the series {series.dtype}', case)
+        return False
+    if series.dtype.kind in 'fiub' and col.to_numpy().tobytes() != series.tobytes():
+        violate(rep, f'{prefix}-values', f'{where}: column {nm!r} differs from the stored series byte-wise', case)
+        return False
+    return True
 
 
 def oracle_container(obj, df, rep, case, where):
@@ -423,7 +763,7 @@ def oracle_container(obj, df, rep, case, where):
         violate(rep, 'container-index', f'{where}: index {list(df.index)} for span {span}', case)
         return
     got = list(df.columns)
-    want = list(obj.index)
+    want = list(vars(obj)['index'])
     if sorted(got) != sorted(want):
         violate(rep, 'container-columns', f'{where}: columns {got}, variables {want}', case)
         return
@@ -431,24 +771,38 @@ def oracle_container(obj, df, rep, case, where):
         violate(rep, 'container-column-order', f'{where}: columns {got}, variable order {want}', case)
         return
     for nm in want:
-        if toks(df[nm]) != toks(obj[nm]):
-            violate(rep, 'container-values', f'{where}: column {nm!r} differs from the series', case)
-        elif obj[nm].dtype.kind in 'fiub' and df[nm].dtype != obj[nm].dtype:
-            violate(rep, 'container-dtype', f'{where}: column {nm!r} dtype {df[nm].dtype} vs {obj[nm].dtype}', case)
+        check_column(obj, nm, df[nm], rep, case, where, 'container')
 
 
 def oracle_from_dataframe(M, m, df, m2, exc, rep, case, where):
-    """`m2 = M.from_dataframe(df)` where df holds (a subset of) the data columns of `m`."""
+    """`m2 = M.from_dataframe(df)` where df holds (a subset of) the data columns of `m`: every class variable that
+    has a column must hold, IN ITS OWN STORAGE (`m2.__dict__['_' + name]`), the stored series of the original."""
     if exc is not None:
-        violate(rep, 'from-dataframe-raises', f'{where}: {type(exc).__name__}: {exc}', case)
+        if isinstance(exc, TypeError) and 'self' in list(df.columns):
+            violate(rep, KNOWN_FD_SELF, f'{where}: columns {list(df.columns)}: {type(exc).__name__}: {exc}', case)
+        else:
+            violate(rep, 'from-dataframe-raises', f'{where}: {type(exc).__name__}: {exc}', case)
         return
     a, b = list(m2.span), list(m.span)
     if len(a) != len(b) or not all(same_label(x, y) for x, y in zip(a, b)):
         violate(rep, 'from-dataframe-span', f'{where}: span {a!r}, original {b!r}', case)
         return
     for nm in M.NAMES:
-        if nm in df.columns and toks(m2[nm]) != toks(m[nm]):
-            violate(rep, 'from-dataframe-values', f'{where}: {nm!r} = {m2[nm].tolist()!r}, original {m[nm].tolist()!r}', case)
+        if nm not in df.columns:
+            continue
+        new, old = truth(m2, nm), series_of(m, nm, rep)
+        if new is None:
+            if '_' + nm in vars(m2) or nm not in vars(m2)['index']:
+                violate(rep, 'from-dataframe-not-a-series', f'{where}: {nm!r} is stored as {short(vars(m2).get("_" + nm))}', case)
+                continue
+            new = m2[nm]
+        if toks(new) != toks(old):
+            other = [k for k in M.NAMES if k != nm and truth(m, k) is not None and len(old) and toks(truth(m, k)) == toks(new)]
+            if other:
+                violate(rep, 'from-dataframe-holds-other-series', f'{where}: {nm!r} = {short(new.tolist())} = the original '
+                            f'series of {other[0]!r}; original {nm!r}: {short(old.tolist())}', case)
+            else:
+                violate(rep, 'from-dataframe-values', f'{where}: {nm!r} = {short(new.tolist())}, original {short(old.tolist())}', case)
 
 
 def classify_symbol_diff(orig, back):
@@ -615,10 +969,63 @@ def run_models(ctx, rep, n_models):
     return scripts
 
 
-def one_model(ctx, rep, rec, M, m, items, ft_items, rng):
+def safe(fn, rep, key, where, case):
+    """Run an export / import of the code under test; an exception is a violation `key`, never a harness error."""
+    try:
+        with np.errstate(all='ignore'):
+            return fn(), None
+    except Exception as e:  # noqa: BLE001
+        if key is not None:
+            violate(rep, key, f'{where} raised {type(e).__name__}: {short(str(e), 300)}', case)
+        return None, e
+
+
+def canon_or_none(df):
+    try:
+        return table_canon(df)
+    except Exception:  # noqa: BLE001
+        return 'uncanonical'
+
+
+ALL_VARIANTS = ('data-columns', 'dropped', 'all-flags', 'subset+extra', 'ints')
+
+
+def count_name_kinds(rep, names, prefix='name-kind:'):
+    """Per case: which kinds of access-path-sensitive names its variables have."""
+    kinds = set()
+    if twin_kind(names):
+        kinds.add('underscore-twin')
+    for nm in names:
+        k = name_kind(nm)
+        if k != 'plain':
+            kinds.add(k)
+        elif nm.startswith('_'):
+            kinds.add('underscore-prefixed')
+    for k in kinds or {'plain-only'}:
+        rep.dist[prefix + k] += 1
+    return kinds
+
+
+def series_unique(obj):
+    """No two series of the object are equal (the precondition for a mix-up to be visible)."""
+    seen = set()
+    for k in vars(obj)['index']:
+        if k in ('status', 'iterations'):
+            continue
+        t = truth(obj, k)
+        key = None if t is None else (t.dtype.kind in 'fiub', tuple(toks(t)))
+        if key is None or key in seen:
+            return False
+        seen.add(key)
+    return True
+
+
+def one_model(ctx, rep, rec, M, m, items, ft_items, rng, flags_list=FLAGS, entries=('method', 'function'),
+              variants=ALL_VARIANTS):
     rep.dist['span:' + rec['span'][0]] += 1
     rep.dist['solved' if rec['solve'] else 'unsolved'] += 1
     rep.dist['n_extras:%d' % len(rec['extras'])] += 1
+    rep.dist['model-host:' + rec.get('host', 'parser-script')] += 1
     for nm, dt, spec in rec['extras']:
         rep.dist['extra-dtype:' + dt] += 1
         if has_edge_ws(nm):
@@ -631,75 +1038,117 @@ def one_model(ctx, rep, rec, M, m, items, ft_items, rng):
         rep.dist['names-guard-broken'] += 1
         rep.notes.append(f'instance with duplicate/reserved variable names: {list(m.names)}')
         return
+    count_name_kinds(rep, list(vars(m)['names']))
+    if rec.get('uniq') and len(m.span):
+        rep.dist['series-all-unique' if series_unique(m) else 'series-not-unique'] += 1
     store = store_json(m)
     nontrivial = bool(len(m.span)) and bool(m.names)
-    for flags in FLAGS:
+    for flags in flags_list:
         kw = {'status': flags[0], 'iterations': flags[1], 'include_internal': flags[2]}
-        for entry in ('method', 'function'):
+        for entry in entries:
             case = {'kind': 'table', 'recipe': rec, 'flags': list(flags), 'entry': entry}
-            df = m.to_dataframe(**kw) if entry == 'method' else fsic.tools.model_to_dataframe(m, **kw)
-            oracle_table(m, df, flags, rep, case, f'{entry} to_dataframe{kw}')
-            items.append(('model_to_dataframe', store, flags, table_canon(df), case))
+            where = f'{entry} to_dataframe{kw}'
+            df, exc = safe((lambda: m.to_dataframe(**kw)) if entry == 'method' else (lambda: fsic.tools.model_to_dataframe(m, **kw)),
+                           rep, 'df-export-raises', where, case)
+            if exc is None:
+                if not isinstance(df, pd.DataFrame):
+                    violate(rep, 'df-not-a-dataframe', f'{where} returned {type(df).__name__}', case)
+                else:
+                    oracle_table(m, df, flags, rep, case, where)
+                    items.append(('model_to_dataframe', store, flags, canon_or_none(df), case))
             rep.case(json.dumps(case, sort_keys=True), nontrivial=nontrivial,
-                     sample={'script': rec['script'], 'span': rec['span'], 'flags': list(flags),
-                             'columns': list(df.columns)} if rep.evaluations % 1499 == 0 else None)
+                     sample={'script': rec.get('script', rec.get('class_names')), 'span': rec['span'], 'flags': list(flags),
+                             'columns': list(df.columns)} if exc is None and rep.evaluations % 1499 == 0 else None)
     # container export
     case = {'kind': 'container', 'recipe': rec}
-    cdf = VectorContainer.to_dataframe(m)
-    oracle_container(m, cdf, rep, case, 'VectorContainer.to_dataframe(model)')
-    items.append(('VectorContainer.to_dataframe', store, None, table_canon(cdf), case))
+    cdf, exc = safe(lambda: VectorContainer.to_dataframe(m), rep, 'container-export-raises', 'VectorContainer.to_dataframe(model)', case)
+    if exc is None:
+        oracle_container(m, cdf, rep, case, 'VectorContainer.to_dataframe(model)')
+        items.append(('VectorContainer.to_dataframe', store, None, canon_or_none(cdf), case))
     rep.case(json.dumps(case, sort_keys=True), nontrivial=nontrivial)
     # import
-    for variant in ('data-columns', 'dropped', 'all-flags', 'subset+extra', 'ints'):
+    for variant in variants:
         case = {'kind': 'from_dataframe', 'recipe': rec, 'variant': variant}
         kwargs = {}
-        if variant == 'data-columns':
-            df = m.to_dataframe(status=False, iterations=False, include_internal=True)
-        elif variant == 'dropped':
-            df = m.to_dataframe(include_internal=False).drop(columns=['status', 'iterations'])
-        elif variant == 'all-flags':
-            df = m.to_dataframe(include_internal=True)
-        elif variant == 'subset+extra':
-            df = m.to_dataframe(status=False, iterations=False)
-            keep = [c for c in df.columns if rng.random() < 0.6]
-            df = df[keep].copy()
-            df['Zz_extra'] = 1.5
-            kwargs = {'default_value': rng.choice([2.5, 3, -1.0])}
-        else:
-            df = pd.DataFrame({nm: [rng.choice([0, 1, -7, 12]) for _ in m.span] if j % 2 == 0 else
-                               [rng.random() < 0.5 for _ in m.span] for j, nm in enumerate(M.NAMES)}, index=m.span)
-            if len(m.span) == 0:
-                df = df.astype(int)
-        if any(df[c].dtype.kind not in 'fiub' for c in df.columns if c in M.NAMES):
-            continue
         try:
-            m2, exc = M.from_dataframe(df, **kwargs), None
-        except Exception as e:  # noqa: BLE001
-            m2, exc = None, e
+            if variant == 'data-columns':
+                df = m.to_dataframe(status=False, iterations=False, include_internal=True)
+            elif variant == 'dropped':
+                df = m.to_dataframe(include_internal=False).drop(columns=['status', 'iterations'])
+            elif variant == 'all-flags':
+                df = m.to_dataframe(include_internal=True)
+            elif variant == 'subset+extra':
+                df = m.to_dataframe(status=False, iterations=False)
+                keep = [c for c in df.columns if rng.random() < 0.6]
+                df = df[keep].copy()
+                df['Zz_extra'] = 1.5
+                if 'default_value' not in keep:      # (a column of that label already binds the parameter)
+                    kwargs = {'default_value': rng.choice([2.5, 3, -1.0])}
+            else:
+                df = pd.DataFrame({nm: [rng.choice([0, 1, -7, 12]) for _ in m.span] if j % 2 == 0 else
+                                   [rng.random() < 0.5 for _ in m.span] for j, nm in enumerate(M.NAMES)}, index=m.span)
+                if len(m.span) == 0:
+                    df = df.astype(int)
+                # (a column labelled default_value binds the constructor's parameter: it matters like a class variable's)
+            if any(df[c].dtype.kind not in 'fiub' for c in df.columns if c in M.NAMES or c == 'default_value'):
+                continue
+        except Exception:  # noqa: BLE001  (the export itself failed: reported above)
+            rep.dist['from_dataframe-skipped:export-failed'] += 1
+            continue
+        m2, exc = safe(lambda: M.from_dataframe(df, **kwargs), rep, None, '', case)
         if variant in ('data-columns', 'dropped', 'all-flags'):
             oracle_from_dataframe(M, m, df, m2, exc, rep, case, f'from_dataframe({variant})')
         rep.case(json.dumps(case, sort_keys=True), nontrivial=nontrivial)
-        # series compared by name (the order of the container index is not an observable of this property)
-        impl = 'raises' if m2 is None else {'span': [tok(x) for x in m2.span], 'names': list(m2.names),
-                                            'data': sorted([k, toks(m2[k])] for k in m2.index)}
-        ft_items.append((table_canon(df), list(M.NAMES), tok(kwargs.get('default_value', 0.0)), impl, case))
+        # series compared by name AS STORED (the order of the container index is not an observable of this property)
+        try:
+            impl = 'raises' if m2 is None else {'span': [tok(x) for x in m2.span], 'names': list(m2.names),
+                                                'dict': stored_dict(m2)}
+        except Exception:  # noqa: BLE001
+            impl = 'unreadable'
+        ft_items.append((canon_or_none(df), list(M.NAMES), tok(kwargs.get('default_value', 0.0)), impl, case))
+
+
+def stored_dict(obj):
+    sj = store_json(obj)
+    return sorted(sj['dict']) if 'dict' in sj else sorted(['_' + k, cells] for k, cells in sj['data'])
+
+
+def one_container(ctx, rep, rec, c, items):
+    """A plain VectorContainer (recipe with `container`): `to_dataframe` against the ground truth + the model."""
+    names = list(vars(c)['index'])
+    rep.dist['model-host:container'] += 1
+    count_name_kinds(rep, names)
+    if len(c.span):
+        rep.dist['series-all-unique' if series_unique(c) else 'series-not-unique'] += 1
+    case = {'kind': 'container', 'recipe': rec}
+    df, exc = safe(lambda: c.to_dataframe(), rep, 'container-export-raises', 'VectorContainer.to_dataframe', case)
+    if exc is None:
+        oracle_container(c, df, rep, case, 'VectorContainer.to_dataframe')
+        items.append(('VectorContainer.to_dataframe (plain container)', store_json(c), None, canon_or_none(df), case))
+    rep.case(json.dumps(case, sort_keys=True), nontrivial=bool(names))
 
 
 def check_from_table(ctx, rep, ft_items):
     if ctx.oracle_only or not ft_items:
         return
+    ft_items = [x for x in ft_items if x[0] != 'uncanonical']
     outs = ctx.drive(['tools_from_table\t' + json.dumps({'table': t, 'NAMES': names, 'default': d})
                       for t, names, d, _, _ in ft_items])
     for (t, names, d, impl, case), o in zip(ft_items, outs):
         model = json.loads(o) if not o.startswith('!') else o
         if isinstance(model, dict):
-            model['data'] = sorted(model['data'])
+            # the constructed instance as it is in memory: storage key -> cells
+            model = {'span': model['span'], 'names': model['names'], 'dict': sorted(model['dict'])}
         if model != impl:
             rep.disagree('from_dataframe: model != impl', case, model, impl)
 
 
 LINKER_NAMES = ['_', 'L', 'world', 0, 17]
 SUB_KEYS = ['A', 'B', 'uk', 1, 2, 'L']
+
+
+OWN_CHOICES = [[], ['T'], ['T', '_U'], ['_U', 'V', 'T'], ['T', '_T'], ['_T', 'T', '__T'], ['size', '_size', 'copy'],
+               ['values', 'nbytes'], ['V', '_V_', '_V', 'sizes']]
 
 
 def gen_linker_recipe(rng, scripts):
@@ -715,21 +1164,55 @@ def gen_linker_recipe(rng, scripts):
         M = model_class(script)
         rec = gen_recipe(rng, script, list(M.NAMES))
         rec['span'] = [kind, n, o]
-        rec['init'] = {}
+        if not rec.get('uniq'):
+            rec['init'] = {}
         rec['edits'] = [e for e in rec['edits'] if e[0] < n]
-        for ex in rec['extras']:
-            ex[2] = gen_extra_values(rng, ex[1], n)
+        for j, ex in enumerate(rec['extras']):
+            ex[2] = ({'scalar': False, 'vals': uniq_vals(ex[0], len(M.NAMES) + j, n, ex[1])} if rec.get('uniq')
+                     else gen_extra_values(rng, ex[1], n))
+        if rec.get('uniq'):
+            rec['init'] = {v: [bits(x) for x in uniq_vals(v, j, n, 'float')] for j, v in enumerate(M.NAMES) if v not in ctor_params()}
         subs.append([k, rec])
     name = rng.choice([x for x in LINKER_NAMES if x not in keys])
     if keys and rng.random() < 0.06:
         name = rng.choice(keys)
-    own = rng.choice([[], ['T'], ['T', '_U'], ['_U', 'V', 'T']])
+    own = rng.choice(OWN_CHOICES)
     extras = []
-    for nm in rng.sample(EXTRA_NAMES, rng.choice([0, 1, 2])):
+    pool = EXTRA_NAMES + ['_' + v for v in own] + (rng.sample(accepted('linker-runtime'), 2) if rng.random() < 0.3 else [])
+    for nm in rng.sample(pool, rng.choice([0, 1, 2])):
+        if nm in own or nm in [e[0] for e in extras]:
+            continue
         dt = rng.choice(list(DTYPES))
         extras.append([nm, dt, gen_extra_values(rng, dt, n)])
-    return {'name': name, 'own': own, 'subs': subs, 'extras': extras, 'solve': rng.random() < 0.4,
+    lrec = {'name': name, 'own': own, 'subs': subs, 'extras': extras, 'solve': rng.random() < 0.4,
             'span': [kind, n, o]}
+    if rng.random() < 0.5:
+        uniquify_linker(lrec, n)
+    return lrec
+
+
+def uniquify_linker(lrec, n):
+    """Unique series for the linker's core variables (declared: initial values / written to storage; run-time:
+    add_variable values)."""
+    lrec['uniq'] = True
+    lrec['init'], lrec['poke'] = {}, {}
+    for j, v in enumerate(lrec['own']):
+        (lrec['poke'] if v in ctor_params() else lrec['init'])[v] = [bits(x) for x in uniq_vals(v, 40 + j, n, 'float')]
+    for j, e in enumerate(lrec['extras']):
+        if e[1] in ('bool', 'uint8'):
+            e[1] = 'int'
+        e[2] = {'scalar': False, 'vals': uniq_vals(e[0], 50 + j, n, e[1])}
+
+
+def gen_named_linker_recipe(rng, own, runtime, subs, n, kind='range', o=0, name='_'):
+    """Linker whose CORE variables are `own` (declared by the class) + `runtime` (add_variable), over the given
+    submodel recipes (all re-spanned to the linker's span)."""
+    for _, rec in subs:
+        rec['span'] = [kind, n, o]
+    lrec = {'name': name, 'own': list(own), 'subs': subs, 'solve': False, 'span': [kind, n, o],
+            'extras': [[nm, rng.choice(UNIQ_DTYPES), None] for nm in runtime]}
+    uniquify_linker(lrec, n)
+    return lrec
 
 
 _LINKER_CLASSES = {}
@@ -751,10 +1234,11 @@ def build_linker(lrec):
     subs = {}
     for k, rec in lrec['subs']:
         subs[k] = build_instance(rec)[1]
+    init = {k: [unbits(b) for b in v] for k, v in lrec.get('init', {}).items()}
+    l = linker_class(lrec['own'])(subs if subs else {}, name=lrec['name'], **(init if subs else {}))
     if subs:
-        l = linker_class(lrec['own'])(subs, name=lrec['name'])
-    else:
-        l = linker_class(lrec['own'])({}, name=lrec['name'])
+        for k, v in lrec.get('poke', {}).items():
+            vars(l)['_' + k][:] = [unbits(b) for b in v]
     apply_extras(l, [e for e in lrec['extras']] if len(l.span) == lrec['span'][1] else [])
     if lrec['solve']:
         with warnings.catch_warnings(), np.errstate(all='ignore'):
@@ -785,39 +1269,44 @@ def oracle_linker(l, flags, d, rep, case):
     return 'ok'
 
 
-def run_linkers(ctx, rep, n_linkers, scripts):
-    rng = ctx.sub_rng('linkers')
-    scripts = [s for s in scripts if s in _CLASS_CACHE] or ['Y = X']
-    items = []
-    for _ in range(n_linkers):
-        lrec = gen_linker_recipe(rng, scripts)
-        try:
-            l = build_linker(lrec)
-        except Exception as e:  # noqa: BLE001
-            rep.dist['linker-failed:' + type(e).__name__] += 1
-            continue
-        rep.dist['linker-submodels:%d' % len(lrec['subs'])] += 1
-        if not names_ok(l) or not all(names_ok(s) for s in l.submodels.values()):
-            rep.dist['names-guard-broken'] += 1
-            continue
-        lstore = store_json(l)
-        sstores = [[ktok(k), store_json(s)] for k, s in l.submodels.items()]
-        for flags in FLAGS:
-            kw = {'status': flags[0], 'iterations': flags[1], 'include_internal': flags[2]}
-            for entry in ('method', 'function'):
-                case = {'kind': 'linker', 'lrecipe': lrec, 'flags': list(flags), 'entry': entry}
-                d = l.to_dataframes(**kw) if entry == 'method' else fsic.tools.linker_to_dataframes(l, **kw)
-                r = oracle_linker(l, flags, d, rep, case)
-                rep.dist['linker:' + r] += 1
-                rep.case(json.dumps(case, sort_keys=True, default=str), nontrivial=bool(lrec['subs']))
+def one_linker(ctx, rep, lrec, l, items, flags_list=FLAGS, entries=('method', 'function')):
+    rep.dist['linker-submodels:%d' % len(lrec['subs'])] += 1
+    if not names_ok(l) or not all(names_ok(s) for s in l.submodels.values()):
+        rep.dist['names-guard-broken'] += 1
+        return
+    count_name_kinds(rep, list(vars(l)['names']), 'linker-core-name-kind:')
+    for sub in l.submodels.values():
+        count_name_kinds(rep, list(vars(sub)['names']), 'submodel-name-kind:')
+    if lrec.get('uniq') and len(l.span):
+        rep.dist['linker-series-all-unique' if series_unique(l) else 'linker-series-not-unique'] += 1
+    lstore = store_json(l)
+    sstores = [[ktok(k), store_json(s)] for k, s in l.submodels.items()]
+    for flags in flags_list:
+        kw = {'status': flags[0], 'iterations': flags[1], 'include_internal': flags[2]}
+        for entry in entries:
+            case = {'kind': 'linker', 'lrecipe': lrec, 'flags': list(flags), 'entry': entry}
+            d, exc = safe((lambda: l.to_dataframes(**kw)) if entry == 'method' else (lambda: fsic.tools.linker_to_dataframes(l, **kw)),
+                          rep, 'linker-export-raises', f'{entry} to_dataframes{kw}', case)
+            rep.case(json.dumps(case, sort_keys=True, default=str), nontrivial=bool(lrec['subs']))
+            if exc is not None:
+                continue
+            r = oracle_linker(l, flags, d, rep, case)
+            rep.dist['linker:' + r] += 1
+            try:
                 impl = sorted([[ktok(k), list(split_special(table_canon(v)))] for k, v in d.items()], key=lambda p: p[0]) \
                     if isinstance(d, dict) else 'not-a-dict'
-                items.append((ktok(l.name), lstore, sstores, flags, impl, case))
-            # the linker's own to_dataframe
-            case = {'kind': 'linker-own', 'lrecipe': lrec, 'flags': list(flags)}
-            df = l.to_dataframe(**kw)
+            except Exception:  # noqa: BLE001
+                impl = 'uncanonical'
+            items.append((ktok(l.name), lstore, sstores, flags, impl, case))
+        # the linker's own to_dataframe
+        case = {'kind': 'linker-own', 'lrecipe': lrec, 'flags': list(flags)}
+        df, exc = safe(lambda: l.to_dataframe(**kw), rep, 'df-export-raises', f'linker.to_dataframe{kw}', case)
+        if exc is None:
             oracle_table(l, df, flags, rep, case, f'linker.to_dataframe{kw}')
-            rep.case(json.dumps(case, sort_keys=True, default=str), nontrivial=True)
+        rep.case(json.dumps(case, sort_keys=True, default=str), nontrivial=True)
+
+
+def check_linkers(ctx, rep, items):
     if ctx.oracle_only or not items:
         return
     outs = ctx.drive(['tools_linker\t' + json.dumps({'name': nm, 'linker': ls, 'subs': ss, 'status': f[0], 'iterations': f[1],
@@ -829,6 +1318,145 @@ def run_linkers(ctx, rep, n_linkers, scripts):
             model = sorted([[k, list(split_special(t))] for k, t in json.loads(o)], key=lambda p: p[0])
         if json.loads(json.dumps(model)) != json.loads(json.dumps(impl)):
             rep.disagree('linker_to_dataframes: model != impl', case, model, impl)
+
+
+def run_linkers(ctx, rep, n_linkers, scripts):
+    rng = ctx.sub_rng('linkers')
+    scripts = [s for s in scripts if s in _CLASS_CACHE] or ['Y = X']
+    items = []
+    for _ in range(n_linkers):
+        lrec = gen_linker_recipe(rng, scripts)
+        try:
+            l = build_linker(lrec)
+        except Exception as e:  # noqa: BLE001
+            rep.dist['linker-failed:' + type(e).__name__] += 1
+            continue
+        one_linker(ctx, rep, lrec, l, items)
+    check_linkers(ctx, rep, items)
+
+
+# ---- the name pools, systematically --------------------------------------------------------------------------------
+
+LIGHT_FLAGS = [(False, False, True), (True, True, False)]
+
+
+def run_names(ctx, rep, n_random, n_random_linkers):
+    """(a) EXHAUSTIVE over the pool (seed-independent): every pool name x every host (declared by a hand-written
+    class, added at run time, through the parser, in a plain container, as a declared / run-time core variable of a
+    linker whose submodel also carries it) — built only where the code under test accepts the name (refusals are
+    counted per host and kind), then exported / re-imported against the ground truth; each accepted name also together
+    with its own underscore twin.  (b) random instances mixing 2-4 members of a twin group, 0-3 member-like names and
+    ordinary names, in random order, all hosts, linkers with such submodels and core variables."""
+    rng = ctx.sub_rng('names')
+    items, ft_items, litems = [], [], []
+    quick = ctx.tier == 'quick'
+    flags_single = LIGHT_FLAGS if quick else FLAGS
+    pool = member_pool()
+    rep.dist['name-pool:size'] = max(rep.dist['name-pool:size'], len(pool))
+    # ---- (a)
+    jobs = [(host, nm) for nm in pool for host in NAME_HOSTS]
+    for idx, (host, nm) in enumerate(jobs):
+        if idx % ctx.parts != ctx.part:
+            continue
+        kind = name_kind(nm)
+        names = [nm, 'X'] if host == 'parser' else ['Y', nm, 'X'] if host == 'class' else [nm]
+        if nm in ('Y', 'X'):
+            names = [nm, 'Q']
+        try:
+            with warnings.catch_warnings():
+                warnings.simplefilter('ignore')
+                rec, obj = try_named(host, names, n=3)
+        except Exception:  # noqa: BLE001
+            rep.dist[f'refused:{host}:{kind}'] += 1
+            rep.dist['refused-by-constructor:' + host] += 1
+            continue
+        rep.dist[f'accepted:{host}:{kind}'] += 1
+        run_named(ctx, rep, host, rec, obj, items, ft_items, litems, rng, flags_single)
+        # the same name next to its own underscore twin(s), twin first and twin last
+        if host in ('class', 'runtime', 'container', 'linker-class') and not (quick and idx % 3):
+            for tw in ([nm, '_' + nm, 'X', '__' + nm], ['_' + nm, 'X', nm]):
+                try:
+                    with warnings.catch_warnings():
+                        warnings.simplefilter('ignore')
+                        rec, obj = try_named(host, tw, n=2)
+                except Exception:  # noqa: BLE001
+                    rep.dist[f'refused:{host}:twin-of-{kind}'] += 1
+                    continue
+                run_named(ctx, rep, host, rec, obj, items, ft_items, litems, rng, LIGHT_FLAGS)
+    # ---- (b)
+    for _ in range(n_random):
+        host = rng.choice(['class', 'class', 'runtime', 'parser', 'container'])
+        names = gen_names(rng, host)
+        rec = gen_named_recipe(rng, host, names)
+        try:
+            with warnings.catch_warnings():
+                warnings.simplefilter('ignore')
+                M, obj = build_instance(rec)
+                if host == 'parser' and sorted(M.NAMES) != sorted(names):
+                    raise ValueError('parser reads the names differently')
+        except Exception as e:  # noqa: BLE001
+            rep.dist[f'named-instance-failed:{host}:{type(e).__name__}'] += 1
+            continue
+        run_named(ctx, rep, host, rec, obj, items, ft_items, litems, rng, FLAGS)
+    for _ in range(n_random_linkers):
+        kind = rng.choice(['range', 'liststr', 'listint', 'mixed'])
+        n, o = rng.choice([1, 2, 3, 4]), rng.randint(0, 3)
+        subs = []
+        for key in rng.sample(SUB_KEYS, rng.choice([1, 1, 2])):
+            host = rng.choice(['class', 'runtime', 'parser'])
+            subs.append([key, gen_named_recipe(rng, host, gen_names(rng, host), n=n, solve=rng.random() < 0.3)])
+        own = gen_names(rng, 'linker-class') if rng.random() < 0.7 else []
+        runtime = [x for x in (gen_names(rng, 'linker-runtime') if rng.random() < 0.6 else []) if x not in own]
+        lrec = gen_named_linker_recipe(rng, own, runtime, subs, n, kind, o, name=rng.choice([x for x in LINKER_NAMES if x not in [k for k, _ in subs]]))
+        lrec['solve'] = rng.random() < 0.3
+        try:
+            with warnings.catch_warnings():
+                warnings.simplefilter('ignore')
+                l = build_linker(lrec)
+        except Exception as e:  # noqa: BLE001
+            rep.dist[f'named-linker-failed:{type(e).__name__}'] += 1
+            continue
+        rep.dist['named-linkers'] += 1
+        one_linker(ctx, rep, lrec, l, litems)
+    check_tables(ctx, rep, items)
+    check_from_table(ctx, rep, ft_items)
+    check_linkers(ctx, rep, litems)
+
+
+def run_named(ctx, rep, host, rec, obj, items, ft_items, litems, rng, flags_list):
+    if host in ('linker-class', 'linker-runtime'):
+        one_linker(ctx, rep, rec, obj, litems, flags_list=flags_list, entries=('method',) if flags_list is LIGHT_FLAGS else ('method', 'function'))
+    elif host == 'container':
+        one_container(ctx, rep, rec, obj, items)
+    else:
+        M = type(obj)
+        one_model(ctx, rep, rec, M, obj, items, ft_items, rng, flags_list=flags_list,
+                  variants=('data-columns', 'dropped') if flags_list is LIGHT_FLAGS else ALL_VARIANTS)
+
+
+def gen_names(rng, host):
+    """2-6 variable names for `host`: with probability 0.7 two to four members of one twin group (always an adjacent
+    pair `x`, `_x`), 0-3 member-like names the host accepts, 0-2 ordinary names; random order (a twin before or after
+    the name whose storage key it is)."""
+    names = []
+    ok = accepted(host)
+    if rng.random() < 0.7:
+        g = twin_group(rng.choice(TWIN_BASES + rng.sample(ok, min(3, len(ok)))))
+        i = rng.choice([0, 0, 1])
+        names += [g[i], g[i + 1] if i < 2 else g[3]]
+        names += [x for x in rng.sample(g, rng.choice([0, 1, 2])) if x not in names]
+    names += [x for x in rng.sample(ok, min(len(ok), rng.choice([0, 1, 1, 2, 3]))) if x not in names]
+    names += [x for x in rng.sample(VAR_POOL, rng.choice([0, 1, 2])) if x not in names]
+    while len(names) < 2:
+        x = rng.choice(VAR_POOL)
+        if x not in names:
+            names.append(x)
+    rng.shuffle(names)
+    if host == 'parser':
+        names = [x for x in names if x.isidentifier()]
+    if host == 'runtime':        # (the base class already declares Y and X: their twins stay, they themselves go)
+        names = [x for x in names if x not in ('Y', 'X')] or ['_Y', '__Y']
+    return names
 
 
 def symbol_lists(rng, scripts, n_sub, built=()):
@@ -1096,23 +1724,38 @@ def run_probes(ctx, rep):
     rep.case('symbols:[]', nontrivial=False)
 
 
-def run(ctx, rep):
+N_PARTS = {'quick': 4, 'thorough': 12}
+
+
+def _work(ctx, rep):
+    """One of N_PARTS worker processes: its share of the models, linkers and name-pool cases."""
     quick = ctx.tier == 'quick'
-    n_models = (420 if quick else 4000) * ctx.scale
-    n_linkers = (110 if quick else 1000) * ctx.scale
-    n_sub = (800 if quick else 8000) * ctx.scale
+    share = lambda total: max(1, -(-total * ctx.scale // ctx.parts))   # noqa: E731
     with warnings.catch_warnings():
         warnings.simplefilter('ignore')
-        scripts = run_models(ctx, rep, n_models)
-        run_linkers(ctx, rep, n_linkers, scripts)
+        scripts = run_models(ctx, rep, share(420 if quick else 4000))
+        run_linkers(ctx, rep, share(110 if quick else 1000), scripts)
+        run_names(ctx, rep, share(160 if quick else 2400), share(60 if quick else 800))
+    for host in NAME_HOSTS:
+        refused = _ACCEPTED.get('refused:' + host)
+        if refused and ctx.part == 0:
+            rep.notes.append(f'names refused on host {host} ({len(refused)}): ' + ' '.join(sorted(refused)))
+
+
+def run(ctx, rep):
+    quick = ctx.tier == 'quick'
+    n_sub = (800 if quick else 8000) * ctx.scale
+    framework.parallel(_work, ctx, rep, parts=N_PARTS[ctx.tier])
+    with warnings.catch_warnings():
+        warnings.simplefilter('ignore')
         extra = []
         rng = ctx.sub_rng('symscripts')
-        for _ in range((900 if quick else 8000) * ctx.scale):
+        for _ in range((1300 if quick else 12000) * ctx.scale):
             extra.append(gen_script(rng))
-        run_symbols(ctx, rep, scripts + extra, n_sub, n_edge_scripts=(400 if quick else 4000) * ctx.scale,
+        run_symbols(ctx, rep, extra, n_sub, n_edge_scripts=(400 if quick else 4000) * ctx.scale,
                     n_built=(1500 if quick else 20000) * ctx.scale)
         run_probes(ctx, rep)
-    rep.notes.append(f'models {n_models}, linkers {n_linkers}, symbol scripts {len(scripts) + len(extra)} (+{n_sub} sub-lists)')
+    rep.notes.append(f'workers {N_PARTS[ctx.tier]}, symbol scripts {len(extra)} (+{n_sub} sub-lists)')
 
 
 # ---- replay -------------------------------------------------------------------------------------------------
@@ -1132,41 +1775,50 @@ def replay(ctx, rep, case):
             print('  out :', back if exc is None else f'raised {type(exc).__name__}: {exc}')
         elif kind in ('table', 'container', 'from_dataframe'):
             M, m = build_instance(case['recipe'])
+            print('  stored:', {k: short(v.tolist(), 60) for k, v in vars(m).items() if isinstance(v, np.ndarray) and k.startswith('_')})
             if kind == 'table':
                 flags = tuple(case['flags'])
                 kw = {'status': flags[0], 'iterations': flags[1], 'include_internal': flags[2]}
-                df = m.to_dataframe(**kw) if case['entry'] == 'method' else fsic.tools.model_to_dataframe(m, **kw)
-                oracle_table(m, df, flags, rep, case, f'to_dataframe{kw}')
-                print(df)
+                df, exc = safe((lambda: m.to_dataframe(**kw)) if case['entry'] == 'method' else
+                               (lambda: fsic.tools.model_to_dataframe(m, **kw)), rep, 'df-export-raises', f'to_dataframe{kw}', case)
+                if exc is None:
+                    oracle_table(m, df, flags, rep, case, f'to_dataframe{kw}')
+                print(df if exc is None else f'raised {exc!r}')
             elif kind == 'container':
-                df = VectorContainer.to_dataframe(m)
-                oracle_container(m, df, rep, case, 'VectorContainer.to_dataframe')
-                print(df)
+                df, exc = safe(lambda: VectorContainer.to_dataframe(m), rep, 'container-export-raises', 'VectorContainer.to_dataframe', case)
+                if exc is None:
+                    oracle_container(m, df, rep, case, 'VectorContainer.to_dataframe')
+                print(df if exc is None else f'raised {exc!r}')
             else:
                 v = case['variant']
-                if v == 'dropped':
-                    df = m.to_dataframe(include_internal=False).drop(columns=['status', 'iterations'])
-                elif v == 'all-flags':
-                    df = m.to_dataframe(include_internal=True)
-                else:
-                    df = m.to_dataframe(status=False, iterations=False, include_internal=True)
                 try:
-                    m2, exc = M.from_dataframe(df), None
+                    if v == 'dropped':
+                        df = m.to_dataframe(include_internal=False).drop(columns=['status', 'iterations'])
+                    elif v == 'all-flags':
+                        df = m.to_dataframe(include_internal=True)
+                    else:
+                        df = m.to_dataframe(status=False, iterations=False, include_internal=True)
                 except Exception as e:  # noqa: BLE001
-                    m2, exc = None, e
+                    print(f'  export raised {e!r}')
+                    return
+                m2, exc = safe(lambda: M.from_dataframe(df), rep, None, '', case)
                 oracle_from_dataframe(M, m, df, m2, exc, rep, case, f'from_dataframe({v})')
                 print(df)
-                print('  span:', None if m2 is None else list(m2.span))
+                print('  span:', None if m2 is None else list(m2.span), '' if exc is None else f'raised {exc!r}')
         elif kind in ('linker', 'linker-own'):
             l = build_linker(case['lrecipe'])
             flags = tuple(case['flags'])
             kw = {'status': flags[0], 'iterations': flags[1], 'include_internal': flags[2]}
             if kind == 'linker':
-                d = l.to_dataframes(**kw) if case['entry'] == 'method' else fsic.tools.linker_to_dataframes(l, **kw)
-                oracle_linker(l, flags, d, rep, case)
-                print({k: list(v.columns) for k, v in d.items()} if isinstance(d, dict) else d)
+                d, exc = safe((lambda: l.to_dataframes(**kw)) if case['entry'] == 'method' else
+                              (lambda: fsic.tools.linker_to_dataframes(l, **kw)), rep, 'linker-export-raises', f'to_dataframes{kw}', case)
+                if exc is None:
+                    oracle_linker(l, flags, d, rep, case)
+                    print({k: list(v.columns) for k, v in d.items()} if isinstance(d, dict) else d)
             else:
-                oracle_table(l, l.to_dataframe(**kw), flags, rep, case, f'linker.to_dataframe{kw}')
+                df, exc = safe(lambda: l.to_dataframe(**kw), rep, 'df-export-raises', f'linker.to_dataframe{kw}', case)
+                if exc is None:
+                    oracle_table(l, df, flags, rep, case, f'linker.to_dataframe{kw}')
         elif kind == 'probe-span':
             m = model_class(case['script'])(list(case['span']))
             df = m.to_dataframe()
